@@ -40,7 +40,7 @@ var props = map[string]PropSpec{
 	"C11": {[]LoadSpec{serverAll, coreRW}},
 	"C12": {[]LoadSpec{serverAll, coreRW}},
 	"C13": {[]LoadSpec{coreRW}},
-	"C14": {[]LoadSpec{serverAll}},
+	"C14": {[]LoadSpec{serverAll, coreRW}},
 	"C15": {[]LoadSpec{coreRW}},
 	"C16": {[]LoadSpec{coreRW}},
 	"C17": {[]LoadSpec{coreRW}},
